@@ -332,6 +332,27 @@ def cross(slot="x0"):
         print(m["id"], m["file"], m["line"], m["op"], "->", {q: c["rc"] for q, c in r["cross"].items()}, flush=True)
 
 
+def recheck(slot="rc0"):
+    """survivors re-run with the CURRENT harness (the sweep's isolated copies date from the start of the sweep)"""
+    import mutcheck
+
+    index = json.load(open(os.path.join(OUT, "index.json")))
+    mutcheck.sync(f"/tmp/verif_iso_{slot}")
+    for m in index:
+        p = os.path.join(OUT, m["id"] + ".json")
+        if not os.path.exists(p):
+            continue
+        r = json.load(open(p))
+        if r.get("rc") != 0 or "passed" not in str(r.get("tests")) or "failed" in str(r.get("tests")):
+            continue
+        c = mutcheck.run(slot, m["patch"], [m["prop"]], jobs=8).get("checks", {}).get(m["prop"], {})
+        r["recheck"] = {"rc": c.get("rc"), "what": (c.get("what") or "")[:200]}
+        if c.get("rc") == 1:
+            r["rc"], r["what"], r["nfi"], r["caught_on_recheck"] = 1, c.get("what"), c.get("no_failing_input"), True
+        json.dump(r, open(p, "w"), indent=1)
+        print(m["id"], m["file"], m["line"], m["op"], "->", c.get("rc"), (c.get("what") or "")[:100], flush=True)
+
+
 if __name__ == "__main__":
     cmd = sys.argv[1]
     arg = lambda k, d: next((a.split("=", 1)[1] for a in sys.argv if a.startswith(k + "=")), d)
@@ -339,6 +360,8 @@ if __name__ == "__main__":
         gen(int(arg("--per-prop", "40")), int(arg("--seed", "1")))
     elif cmd == "cross":
         cross()
+    elif cmd == "recheck":
+        recheck()
     elif cmd == "run":
         run(int(arg("--slots", "3")), [x for x in arg("--props", "").split(",") if x])
     else:
